@@ -37,6 +37,8 @@ ASSUMPTIONS = [
 def subst_cfg(name, out, **kv):
     with open(os.path.join(lib.SPECS, name)) as f:
         txt = f.read()
+    for d in kv.pop("drop", []):
+        txt = "\n".join(l for l in txt.splitlines() if l.strip() != d) + "\n"
     for k, v in kv.items():
         txt, n = re.subn(r"(?m)^(\s*%s\s*=).*$" % re.escape(k), lambda m: m.group(1) + " " + v, txt)
         if n != 1:
@@ -54,6 +56,8 @@ def model_jobs(tier):
         ("content", "SerdeMC", "SerdeMC_content.cfg" if q else subst_cfg("SerdeMC_content.cfg", "content.cfg", MaxLines="4"), {}),
         # content that starts with / contains U+FEFF, every kind
         ("bom", "SerdeMC", "SerdeMC_bom.cfg" if q else subst_cfg("SerdeMC_bom.cfg", "bom.cfg", MaxLines="3"), {}),
+        # every way of not producing a value x stand-alone / spec-backed datasource
+        ("outcomes", "SerdeMC", "SerdeMC_outcomes.cfg", {}),
         ("multi", "SerdeMC", "SerdeMC_multi.cfg" if q else subst_cfg("SerdeMC_multi.cfg", "multi.cfg", MaxElems="3"), {}),
         ("faults", "SerdeMC", "SerdeMC_faults.cfg" if q else subst_cfg("SerdeMC_faults.cfg", "faults.cfg", Kinds=all_kinds), {}),
         # every hydration order of three entries under every corruption (model only)
@@ -61,6 +65,8 @@ def model_jobs(tier):
         ("sim", "SerdeMC", "SerdeMC_sim.cfg",
          dict(simulate=60 if q else 1500, depth=40, tlc_seed=lib.seed() + 23)),
         # RoundTrip can fail: results assembled in the pool's completion order violate it
+        ("neg-points-only", "Serde", subst_cfg("SerdeMC_outcomes.cfg", "negr.cfg", RecordMode='"points-only"', N="1",
+                                               Modes="{}", MaxFaults="0", drop=["CONSTRAINT Emit"]), {}),
         ("neg-completion", "Serde", subst_cfg("Serde_orders.cfg", "negc.cfg", AssembleMode='"completion"', N="1",
                                               MaxElems="2", PoolSet="{TRUE}", Modes="{}", MaxFaults="0"), {}),
     ]
@@ -75,10 +81,11 @@ def run_models(tier):
         r = lib.run_tlc(mod, cfg, workers=4, tag="serde-" + name, timeout=1800, raw_cases=True,
                         coverage=(name in ("faults", "multi")), **kw)
         if name.startswith("neg-"):
-            if r.violation != "RoundTrip":
-                raise lib.MachineryError("model %s: expected TLC to find a violation of RoundTrip for results "
-                                         "assembled in completion order, got violation=%s error=%s"
-                                         % (name, r.violation, r.error))
+            want = {"neg-completion": "RoundTrip", "neg-points-only": "ErrorsPersisted"}[name]
+            if r.violation != want:
+                raise lib.MachineryError("model %s: expected TLC to find a violation of %s for the transcription of "
+                                         "the flawed design, got violation=%s error=%s"
+                                         % (name, want, r.violation, r.error))
             return name, None
         return name, lib.require_ok(r, "Serde model " + name)
 
@@ -101,7 +108,7 @@ def features(case):
 
 
 def nontrivial_key(case):
-    return json.dumps([[(e["kind"], e["multi"], e["failed"], e["saveas"], [el["lines"] for el in e["elems"]])
+    return json.dumps([[(e["kind"], e["multi"], e.get("outcome"), e.get("backed"), e["saveas"], [el["lines"] for el in e["elems"]])
                         for e in case["entries"]], case["fault"], case.get("pooled", False)], sort_keys=True)
 
 
@@ -141,6 +148,8 @@ def run(prop, tier):
                      ("metadata documents with errors were written", stats.get("docs_with_errors", 0) > 0),
                      ("data files were written", stats.get("datafiles", 0) > 0),
                      ("archives were damaged", stats.get("faults", 0) > 0),
+                     ("stand-alone and spec-backed datasources failed", stats.get("failed_alone", 0) > 0 and
+                      stats.get("failed_backed", 0) > 0),
                      ("archives were persisted with a thread pool", stats.get("pooled", 0) > 0),
                      ("entries were loaded into the fresh broker", stats.get("loaded", 0) > 0)):
         if not ok:
@@ -212,10 +221,11 @@ def selftest_traces(traces):
     the change breaks."""
     a1 = {"shape": "str", "v": ["a1"]}
     a2 = {"shape": "str", "v": ["a2"]}
-    comps = [dict(kind="text", multi=False, failed=False, saveas="none", elems=[_elem([["p1"], [], ["n1"], []])]),
-             dict(kind="command", multi=True, failed=False, saveas="none",
+    comps = [dict(kind="text", multi=False, failed=False, outcome="ok", backed=True, saveas="none",
+                  elems=[_elem([["p1"], [], ["n1"], []])]),
+             dict(kind="command", multi=True, failed=False, outcome="ok", backed=False, saveas="none",
                   elems=[_elem([["p2"]], "/bin/echo 1", a1), _elem([["b2"], ["L2"]], "/bin/echo 2", a2)]),
-             dict(kind="none", multi=False, failed=True, saveas="none", elems=[])]
+             dict(kind="none", multi=False, failed=True, outcome="timeout", backed=False, saveas="none", elems=[])]
 
     def doc(name, nerr, res, multi):
         return dict(present=True, readable=True, shape=True, name=name, nerrors=nerr, hasres=bool(res), multi=multi,
@@ -251,6 +261,7 @@ def selftest_traces(traces):
     variant("dropped", "FaultIsolation", lambda e: e[3]["loaded"].__setitem__(1, dict(present=False, multi=False, elems=[])))
     variant("escaped", "FaultIsolation", lambda e: e[3].update(escaped=True))
     variant("errors", "ErrorsPersisted", lambda e: e[1]["docs"][2].update(nerrors=0))
+    variant("nodoc", "ErrorsPersisted", lambda e: e[1]["docs"][2].update(present=False, readable=False, nerrors=0))
     variant("split", "R4.split", lambda e: e[1]["env"][0].update(split=[["p1"], [], ["n1"], []]))
     return out
 
